@@ -46,7 +46,7 @@ struct DocSpec { id: u64, keys: Vec<KV>, tag: u64 }
 #[derive(Clone, Debug)]
 enum Op { Add(DocSpec), Del(u64), Commit, Merge(Vec<usize>) }
 
-struct Fields { id: Field, key: Field, tag: Field, body: Field }
+struct Fields { id: Field, key: Field, tag: Field, body: Field, wf: Field, opt: Field }
 
 /// the extremes batch uses nanosecond precision for the date sort field (so that i64::MAX and i64::MAX-1 ns are
 /// distinct stored values); the other batches keep the default (seconds) with values on the grid
@@ -67,7 +67,12 @@ fn schema_for(kt: KT) -> (Schema, Fields) {
     };
     let tag = sb.add_text_field("tag", STRING | STORED);
     let body = sb.add_text_field("body", TEXT);
-    (sb.build(), Fields { id, key, tag, body })
+    // a field indexed with term frequencies but no positions (TermFrequencyRecorder), absent from some documents,
+    // and a later optional field: several field-norm fields, the later ones missing in documents at any position
+    let wf = sb.add_text_field("wf", tantivy::schema::TextOptions::default().set_indexing_options(
+        tantivy::schema::TextFieldIndexing::default().set_tokenizer("default").set_index_option(IndexRecordOption::WithFreqs)));
+    let opt = sb.add_text_field("opt", TEXT);
+    (sb.build(), Fields { id, key, tag, body, wf, opt })
 }
 
 fn gen_key(rng: &mut Rng, kt: KT, lo: i64, hi: i64) -> KV {
@@ -115,12 +120,63 @@ fn build_doc(f: &Fields, kt: KT, d: &DocSpec) -> TantivyDocument {
     let mut body = format!("w{}", d.id);
     for _ in 0..(d.id % 5) { body.push_str(" x"); }
     doc.add_text(f.body, body);
+    if d.id % 4 != 3 {
+        let mut wf = String::new();
+        for _ in 0..(1 + d.id % 3) { wf.push_str("common "); }
+        wf.push_str(&format!("g{}", d.id % 3));
+        doc.add_text(f.wf, wf);
+    }
+    if d.id % 3 == 0 { doc.add_text(f.opt, "o o"); }
     doc
+}
+
+/// what every document must carry in the later fields, as a function of its id: (norm wf, norm opt, tf of "common")
+fn expected_later(id: u64) -> (u32, u32, u32) {
+    (if id % 4 != 3 { 2 + (id % 3) as u32 } else { 0 }, if id % 3 == 0 { 2 } else { 0 }, if id % 4 != 3 { 1 + (id % 3) as u32 } else { 0 })
+}
+
+/// Everything the index says about a segment, keyed by the documents' ids (not by doc id): field norms of every
+/// field that has them, and the postings (tf, positions) of every term of every indexed field.  Two runs of the
+/// same history under different sort settings must agree on it.
+#[derive(Clone, Debug, PartialEq, Default)]
+struct SegDump {
+    norms: std::collections::BTreeMap<u64, Vec<(u32, u32)>>,
+    postings: std::collections::BTreeSet<(u32, Vec<u8>, u64, u32, Vec<u32>)>,
+}
+
+fn dump_segment(r: &SegmentReader) -> Result<SegDump, String> {
+    let idc = r.fast_fields().u64("id").map_err(|e| format!("id column: {e}"))?;
+    let ids: Vec<u64> = (0..r.max_doc()).map(|d| idc.first(d).unwrap_or(u64::MAX)).collect();
+    let mut dump = SegDump::default();
+    let schema = r.schema().clone();
+    for (field, entry) in schema.fields() {
+        if entry.has_fieldnorms() {
+            let nr = r.get_fieldnorms_reader(field).map_err(|e| format!("norms of {}: {e}", entry.name()))?;
+            for d in 0..r.max_doc() { dump.norms.entry(ids[d as usize]).or_default().push((field.field_id(), nr.fieldnorm(d))); }
+        }
+        if !entry.is_indexed() { continue; }
+        let inv = r.inverted_index(field).map_err(|e| format!("inverted index of {}: {e}", entry.name()))?;
+        let mut stream = inv.terms().stream().map_err(|e| format!("term stream: {e}"))?;
+        while stream.advance() {
+            let term = stream.key().to_vec();
+            let ti = stream.value().clone();
+            let mut p = inv.read_postings_from_terminfo(&ti, IndexRecordOption::WithFreqsAndPositions).map_err(|e| format!("postings: {e}"))?;
+            let mut d = p.doc();
+            let mut pos = vec![];
+            while d != TERMINATED {
+                if d >= r.max_doc() { return Err(format!("posting of field {} beyond max_doc: {d}", entry.name())); }
+                p.positions(&mut pos);
+                dump.postings.insert((field.field_id(), term.clone(), ids[d as usize], p.term_freq(), pos.clone()));
+                d = p.advance();
+            }
+        }
+    }
+    Ok(dump)
 }
 
 /// one document as observed at a doc id
 #[derive(Clone, Debug)]
-struct ODoc { id: u64, keys: Vec<KV>, alive: bool }
+struct ODoc { id: u64, keys: Vec<KV>, alive: bool, norm_body: u32, norm_wf: u32, norm_opt: u32, tf_common: u32 }
 
 /// Reads a segment back in doc-id order; `Err` = an attachment / consistency check failed.
 fn observe_segment(r: &SegmentReader, f: &Fields, kt: KT, truth: &std::collections::HashMap<u64, DocSpec>) -> Result<Vec<ODoc>, String> {
@@ -128,6 +184,26 @@ fn observe_segment(r: &SegmentReader, f: &Fields, kt: KT, truth: &std::collectio
     let idc = ff.u64("id").map_err(|e| format!("id column: {e}"))?;
     let store = r.get_store_reader(0).map_err(|e| format!("store: {e}"))?;
     let norms = r.get_fieldnorms_reader(f.body).map_err(|e| format!("norms: {e}"))?;
+    let norms_wf = r.get_fieldnorms_reader(f.wf).map_err(|e| format!("norms wf: {e}"))?;
+    let norms_opt = r.get_fieldnorms_reader(f.opt).map_err(|e| format!("norms opt: {e}"))?;
+    let inv_wf = r.inverted_index(f.wf).map_err(|e| format!("inv wf: {e}"))?;
+    // (doc, tf) of "common" and the holders of g0/g1/g2 in the WithFreqs field
+    let mut tf_common = vec![0u32; r.max_doc() as usize];
+    let mut group = vec![None; r.max_doc() as usize];
+    for (term, is_common) in [("common", true), ("g0", false), ("g1", false), ("g2", false)] {
+        if let Some(mut p) = inv_wf.read_postings(&Term::from_field_text(f.wf, term), IndexRecordOption::WithFreqs).map_err(|e| format!("postings wf: {e}"))? {
+            let mut d = p.doc();
+            while d != TERMINATED {
+                if d >= r.max_doc() { return Err(format!("posting of wf:{term} beyond max_doc: {d}")); }
+                if is_common { tf_common[d as usize] = p.term_freq(); } else {
+                    if p.term_freq() != 1 { return Err(format!("doc {d}: tf(wf:{term}) = {}", p.term_freq())); }
+                    if group[d as usize].is_some() { return Err(format!("doc {d}: in two wf groups")); }
+                    group[d as usize] = Some(term.as_bytes()[1] - b'0');
+                }
+                d = p.advance();
+            }
+        }
+    }
     let inv_id = r.inverted_index(f.id).map_err(|e| format!("inv id: {e}"))?;
     let inv_body = r.inverted_index(f.body).map_err(|e| format!("inv body: {e}"))?;
     let inv_tag = r.inverted_index(f.tag).map_err(|e| format!("inv tag: {e}"))?;
@@ -178,9 +254,16 @@ fn observe_segment(r: &SegmentReader, f: &Fields, kt: KT, truth: &std::collectio
             has_tag = p.seek(d) == d;
         }
         if !has_tag { return Err(format!("doc {d} (id {id}): not in the postings of its tag t{}", t.tag)); }
+        let (e_wf, e_opt, e_tf) = expected_later(id);
+        let (n_wf, n_opt) = (norms_wf.fieldnorm(d), norms_opt.fieldnorm(d));
+        if n_wf != e_wf { return Err(format!("doc {d} (id {id}): fieldnorm(wf) {n_wf} != {e_wf}")); }
+        if n_opt != e_opt { return Err(format!("doc {d} (id {id}): fieldnorm(opt) {n_opt} != {e_opt}")); }
+        if tf_common[d as usize] != e_tf { return Err(format!("doc {d} (id {id}): tf(wf:common) {} != {e_tf}", tf_common[d as usize])); }
+        let e_group = if id % 4 != 3 { Some((id % 3) as u8) } else { None };
+        if group[d as usize] != e_group { return Err(format!("doc {d} (id {id}): wf group {:?} != {e_group:?}", group[d as usize])); }
         let keys = keys_of(d);
         if keys != t.keys { return Err(format!("doc {d} (id {id}): sort values {keys:?} != indexed {:?}", t.keys)); }
-        out.push(ODoc { id, keys, alive: !r.is_deleted(d) });
+        out.push(ODoc { id, keys, alive: !r.is_deleted(d), norm_body: fnorm, norm_wf: n_wf, norm_opt: n_opt, tf_common: tf_common[d as usize] });
     }
     Ok(out)
 }
@@ -227,7 +310,7 @@ fn obs_term(obs: &[Vec<ODoc>]) -> String {
 }
 fn order_term(desc: bool) -> &'static str { if desc { "Desc" } else { "Asc" } }
 
-struct Run { obs: Vec<Vec<ODoc>>, opstamps: Vec<u64>, problems: Vec<String>, merges: u64,
+struct Run { obs: Vec<Vec<ODoc>>, dump: Vec<SegDump>, opstamps: Vec<u64>, problems: Vec<String>, merges: u64,
              /// a merge whose sources are in class F171 produced an unsorted segment: (sources, result, number of ops executed)
              f171: Option<(Vec<Vec<ODoc>>, Vec<ODoc>, usize)>,
              /// some merge had sources in class F171 (whether or not the implementation misplaced anything)
@@ -317,11 +400,13 @@ fn run_history(kt: KT, sort: Option<bool>, ops: &[Op]) -> Result<Run, String> {
     w.wait_merging_threads().ok();
     let searcher = index.reader().map_err(|e| format!("reader: {e}"))?.searcher();
     let mut obs = vec![];
+    let mut dump = vec![];
     for sid in &positions {
         let r = searcher.segment_readers().iter().find(|r| r.segment_id() == *sid).ok_or("segment vanished")?;
         obs.push(observe_segment(r, &f, kt, &truth).unwrap_or_else(|e| { problems.push(format!("attachment: {e}")); vec![] }));
+        dump.push(dump_segment(r).unwrap_or_else(|e| { problems.push(format!("dump: {e}")); SegDump::default() }));
     }
-    Ok(Run { obs, opstamps, problems, merges, f171, f171_class_merge })
+    Ok(Run { obs, dump, opstamps, problems, merges, f171, f171_class_merge })
 }
 
 /// the key of a small integer in the field's type (order preserving)
@@ -539,6 +624,33 @@ fn run_and_emit(out: &mut CaseOut, kt: KT, sort: Option<bool>, ops: Vec<Op>, mul
     let obs = obs_term(&run.obs);
     let so = match sort { Some(d) => format!("(Some {})", order_term(d)), None => "None".into() };
     out.coq_case("spec", format!("spec_content {} {}", h, obs), desc_json(json!({"check": "live ids per segment = sequential meaning"})), nontrivial);
+    // field norms of the three text fields and tf of the shared WithFreqs term, per document, against their definition by id
+    let att: Vec<String> = run.obs.iter().flatten().map(|d| format!("({},{},{},{},{})", d.id, d.norm_body, d.norm_wf, d.norm_opt, d.tf_common)).collect();
+    out.coq_case("spec", format!("spec_attached [{}]", att.join(";")), desc_json(json!({"check": "norms / tf attached to the right id"})), nontrivial);
+    // unchanged semantics: the same history on an UNSORTED index must give, segment by segment and keyed by document id,
+    // the same field norms for every normed field and the same postings (tf, positions) for every term of every field
+    if sort.is_some() && run.f171.is_none() {
+        match guarded(|| run_history(kt, None, &ops)) {
+            Ok(Ok(reference)) => {
+                let mut diff: Vec<String> = vec![];
+                if reference.dump.len() != run.dump.len() { diff.push(format!("{} segments vs {} unsorted", run.dump.len(), reference.dump.len())); }
+                for (i, (a, b)) in run.dump.iter().zip(reference.dump.iter()).enumerate() {
+                    if a.norms != b.norms {
+                        let bad: Vec<String> = a.norms.iter().filter(|(id, v)| b.norms.get(id) != Some(v)).take(4).map(|(id, v)| format!("id {id}: norms {v:?} vs unsorted {:?}", b.norms.get(id))).collect();
+                        diff.push(format!("segment {i}: field norms differ: {bad:?}"));
+                    }
+                    if a.postings != b.postings {
+                        let only_sorted: Vec<_> = a.postings.difference(&b.postings).take(4).map(|(f, t, id, tf, pos)| format!("field {f} term {:?} id {id} tf {tf} pos {pos:?}", String::from_utf8_lossy(t))).collect();
+                        let only_unsorted: Vec<_> = b.postings.difference(&a.postings).take(4).map(|(f, t, id, tf, pos)| format!("field {f} term {:?} id {id} tf {tf} pos {pos:?}", String::from_utf8_lossy(t))).collect();
+                        diff.push(format!("segment {i}: postings differ: only sorted {only_sorted:?}, only unsorted {only_unsorted:?}"));
+                    }
+                }
+                out.spec_checked(diff.is_empty(), desc_json(json!({"check": "sorted vs unsorted reference (norms of every field, postings of every term, by document id)", "differences": diff})));
+                out.count("reference_comparisons", 1);
+            }
+            other => out.spec_checked(false, desc_json(json!({"check": "unsorted reference run failed", "result": format!("{:?}", other.map(|r| r.map(|_| ())))}))),
+        }
+    }
     out.count("histories", 1);
     out.count(&format!("field_{}", kt.name()), 1);
     out.count("merges", run.merges);
